@@ -2,6 +2,7 @@
 
 from __future__ import annotations
 
+import inspect
 from io import StringIO
 from itertools import chain
 from pathlib import Path
@@ -218,6 +219,11 @@ class BoundTemplate:
             return True
 
         uptodate = self.uptodate()
+        if inspect.iscoroutine(uptodate):
+            # This template was loaded by an async request and we can't await its
+            # `uptodate` here. Say it's stale, so the caller loads it again.
+            uptodate.close()
+            return False
         if not isinstance(uptodate, bool):
             raise LiquidError(
                 f"expected a boolean from uptodate, found {type(uptodate).__name__}",
